@@ -121,3 +121,24 @@ fn hit_ratio_is_the_quotient() {
     assert!(r == (hits as f64) / ((hits + misses) as f64));
     kani::cover!(misses == 0, "all-hit workload");
 }
+
+#[kani::proof]
+fn exp_quot_u8() {
+    let hits: u8 = kani::any(); let misses: u8 = kani::any();
+    kani::assume(hits > 0);
+    let r = hit_ratio_case(hits as u64, misses as u64);
+    assert!(r == (hits as f64) / ((hits as u64 + misses as u64) as f64));
+}
+#[kani::proof]
+fn exp_all_hits_is_one() {
+    let hits: u64 = kani::any();
+    kani::assume(hits > 0);
+    assert!(hit_ratio_case(hits, 0) == 1.0);
+}
+#[kani::proof]
+fn exp_quot_u4() {
+    let hits: u8 = kani::any(); let misses: u8 = kani::any();
+    kani::assume(hits > 0 && hits < 16 && misses < 16);
+    let r = hit_ratio_case(hits as u64, misses as u64);
+    assert!(r == (hits as f64) / ((hits as u64 + misses as u64) as f64));
+}
